@@ -236,6 +236,9 @@ class TypeTransformer:
     @registry.register(str)
     def to_str(self, data, t: Type[str] = str) -> str:
         if isinstance(data, str):
+            if isinstance(data, Enum):
+                # str(member) of a (str, Enum) class is 'Class.member' since python 3.11
+                data = data.value
             return t(data)
         data = self._from_byte_like(self._attempt_from(data))
         if self.no_explicit_cast and not isinstance(data, str):
